@@ -51,6 +51,19 @@ VERUS_UNITS = {
              'ensures r == old(self).callback, final(self).callback is Some,', 'SystemCommandStorage::take'),
         ],
     },
+    'readers': {
+        'template': 'readers.rs.tpl',
+        'owners': [
+            (r'(InsertionEvent|MutationEvent|RemovalEvent|DespawnEvent)::(get|is_empty)$', ['C03', 'C04']),
+            (r'ReactComponentId::id$', ['C03']),
+            (r'check_readers_exclusive$', ['C03', 'C04']),
+        ],
+        'negctl': [
+            ('ensures r is Ok <==> (self.tracker.value.currently_reacting && self.tracker.value.reaction_type == EntityReactionType::Insertion(self.component_id.value.id)),',
+             'ensures r is Ok <==> (self.tracker.value.currently_reacting && self.tracker.value.reaction_type == EntityReactionType::Mutation(self.component_id.value.id)),', 'InsertionEvent::get'),
+            ('ensures r is Ok <==> self.tracker.value.currently_reacting,', 'ensures r is Ok,', 'DespawnEvent::get'),
+        ],
+    },
     'lemmas': {
         'template': 'lemmas.rs.tpl',
         'owners': [
